@@ -60,6 +60,7 @@ package dir
 //@   modifies dip.blks[*], dirtyinum, wroteinum, abits, op.Atxn.allocBnums, []uint64@alloctxn.AllocTxn.allocBnums, []uint8@buf.Buf.Data, buf.Buf.dirty
 //@   ensures [ibits-same] abits[theIalloc] == old(abits)[theIalloc] @C05
 //@   ensures dirDone(dip, op) && dip.Size == old(dip.Size) && dip.Kind == 2
+//@   assumes [S3-empty] result ==> (forall n string :: dnames[dip.Inum][n] != 0 ==> (len(n) == 1 && n[0] == 46) || (len(n) == 2 && n[0] == 46 && n[1] == 46))
 //@   loop 0 invariant off & 127 == 0 && off >= 256 && dip.Size == old(dip.Size) && dip.Kind == 2 && inodeInv(dip) && dirShape(dip) && opOpen(op) && dirtyInv() && allocInv() && (!dirtyinum[dip.Inum] || old(dirtyinum)[dip.Inum]) && othersClean(dip) && listsStable(op.Atxn)
 //@   loop 0 decreases dip.Size - off
 //@   loop 0 invariant [ibits] abits[theIalloc] == old(abits)[theIalloc]
@@ -148,6 +149,7 @@ package dir
 //@   ghostexit dnames = ite(result, store(dnames, dip.Inum, store(dnames[dip.Inum], name, inum)), dnames)
 //@   ensures [Q1-refuse] (len(name) > 112 || dip.Kind != 2) ==> !result && dip.Size == old(dip.Size) && dirtyinum == old(dirtyinum) @C19 @C09
 //@   ensures [Fn5-add] result ==> dnames[dip.Inum][name] == inum && dip.Kind == 2 @C02
+//@   ensures [Fn5-frame] forall d uint64, n string :: !(d == dip.Inum && n == name) ==> dnames[d][n] == old(dnames)[d][n] @C02
 //@   ensures [E7-grow] dip.Size == old(dip.Size) || (result && dip.Size == old(dip.Size) + 128) @C13 @C09
 //@   ensures dirModsOK(dip, op) && (result ==> dip.Dcache != nil)
 
@@ -162,6 +164,7 @@ package dir
 //@   ghostexit dnames = ite(result, store(dnames, dip.Inum, store(dnames[dip.Inum], name, 0)), dnames)
 //@   panic_assumed "RemName"
 //@   ensures [Fn5-rem] result ==> old(dnames)[dip.Inum][name] != 0 && dnames[dip.Inum][name] == 0 && dip.Kind == 2 @C02
+//@   ensures [Fn5-frame] forall d uint64, n string :: !(d == dip.Inum && n == name) ==> dnames[d][n] == old(dnames)[d][n] @C02
 //@   ensures [E7-size] dip.Size == old(dip.Size) @C13 @C09
 //@   ensures dirModsOK(dip, op) && (result ==> dip.Dcache != nil)
 
